@@ -4,12 +4,12 @@ package main
 
 import (
 	"bytes"
-	"go/constant"
-	"go/types"
 	"context"
 	"crypto/sha256"
 	"encoding/hex"
 	"fmt"
+	"go/constant"
+	"go/types"
 	"os"
 	"os/exec"
 	"path/filepath"
